@@ -69,8 +69,12 @@ class Parameter(Expression):
             value: Initial value (default: 0.0).
         """
         self.name = name
+        # NumPy integers / integer arrays become floats like Python ints do: a parameter is a real
+        # number, and integer dtypes change the arithmetic (2 ** -1 raises, results wrap around)
         self._value: float | NDArray[np.floating] = (
-            np.asarray(value) if not isinstance(value, (int, float)) else float(value)
+            np.asarray(value, dtype=float)
+            if not isinstance(value, (int, float))
+            else float(value)
         )
 
     @property
@@ -97,7 +101,9 @@ class Parameter(Expression):
             120.0
         """
         new_value: float | NDArray[np.floating] = (
-            np.asarray(value) if not isinstance(value, (int, float)) else float(value)
+            np.asarray(value, dtype=float)
+            if not isinstance(value, (int, float))
+            else float(value)
         )
 
         # Check shape compatibility for arrays
